@@ -1075,7 +1075,7 @@ def replay_violation(path):
         for r in (d["reference"], d["rerun"]):
             r = dict(r)
             r.update(cli_run(r["prog"], r["args"], 300))
-            docs.append(summarize(r, gids[r["ds"]], 12))
+            docs.append(summarize(r, gids[r["ds"]], 9 + (3 if r["prog"] == "call-pedigree" else 4)))
         tf = os.path.join(ck.wd, "trace-summaries-replayed.json")
         with open(tf, "w") as fh:
             json.dump({"kind": "summaries", "runs": docs}, fh)
